@@ -602,6 +602,10 @@ def _arpa_base_conversion(ctx: Ctx):
             return True
         if zero(e):
             return True
+        if isinstance(e, ast.Tuple):
+            return all(converted(x, depth + 1) for x in e.elts)
+        if isinstance(e, ast.IfExp):
+            return converted(e.body, depth + 1) and converted(e.orelse, depth + 1)
         if isinstance(e, ast.Name):
             ds = [d for d in rd.defs_of(e)]
             return bool(ds) and all(d.kind == "assign" and d.value is not None and converted(d.value, depth + 1) for d in ds)
@@ -623,7 +627,7 @@ def _arpa_base_conversion(ctx: Ctx):
            f"`{u(bad[0][0])[:90] if bad else ''}` stores `{u(bad[0][1]) if bad else ''}` without dividing by the to_base_e "
            f"normaliser: with to_base_e=True that column stays in base 10 while the other is natural", rel,
            bad[0][0].lineno if bad else f.line, sample=[u(n)[:90] for n, _ in stores])
-    col.floor("arpa_number_stores", len(stores), 2)
+    col.floor("arpa_number_stores", len(stores), 1)
 
 
 def _mutants():
